@@ -6,28 +6,31 @@ namespace NeoModel.Mempool
 
 /-- the operations of the property's quantifier (each call brings its own `Feer` snapshot) -/
 inductive Op
-  | add (t : Tx) (feer : Feer)
+  | add (t : Tx) (feer : Feer) (data : Nat := 0)
   | remove (h : Nat)
   | removeStale (isOK : Tx → Bool) (feer : Feer)
   | verify (t : Tx) (feer : Feer)
   | setResendThreshold (h : Nat)
+  | setSubs (on : Bool)
 
 def applyOp (mp : Pool) : Op → Pool
-  | .add t feer => (add mp t feer).1
+  | .add t feer d => (add mp t feer d).1
   | .remove h => remove mp h
   | .removeStale isOK feer => removeStale mp isOK feer
   | .verify t feer => (verify mp t feer).1
   | .setResendThreshold h => setResendThreshold mp h
+  | .setSubs on => setSubs mp on
 
 def run (capacity : Nat) (ops : List Op) : Pool := ops.foldl applyOp (new capacity)
 
 /-- the operation offers a transaction of the universe `U` and its `Feer` reports balances below 2^255 -/
 def OpOk (U : Tx → Prop) : Op → Prop
-  | .add t f => U t ∧ FeerOk f
+  | .add t f _ => U t ∧ FeerOk f
   | .verify t f => U t ∧ FeerOk f
   | .removeStale _ f => FeerOk f
   | .remove _ => True
   | .setResendThreshold _ => True
+  | .setSubs _ => True
 
 def OpsIn (U : Tx → Prop) (ops : List Op) : Prop := ∀ op ∈ ops, OpOk U op
 
@@ -39,22 +42,23 @@ theorem inv_new (U : Tx → Prop) (c : Nat) : Inv U (new c) := by
   · intro q; simp [new, FeeEntry, sumFees]
 
 theorem inv_add {U : Tx → Prop} (hw : WF U) {mp : Pool} (hi : Inv U mp) {t : Tx} (ht : U t) (feer : Feer)
-    (hF : FeerOk feer) : Inv U (add mp t feer).1 := by
-  obtain ⟨h1, h2⟩ := add_spec hw hi ht feer hF
-  cases hr : add mp t feer with
+    (hF : FeerOk feer) (d : Nat) : Inv U (add mp t feer d).1 := by
+  obtain ⟨h1, h2⟩ := add_spec hw hi ht feer hF d
+  cases hr : add mp t feer d with
   | mk mp' r =>
     cases r with
     | none => exact (h2 mp' hr).1
-    | some e => exact (h1 mp' e hr).2
+    | some e => exact (h1 mp' e hr).2.1
 
 theorem inv_applyOp {U : Tx → Prop} (hw : WF U) {mp : Pool} (hi : Inv U mp) (op : Op)
     (hop : OpOk U op) : Inv U (applyOp mp op) := by
   cases op with
-  | add t feer => exact inv_add hw hi hop.1 feer hop.2
+  | add t feer d => exact inv_add hw hi hop.1 feer hop.2 d
   | remove h => exact inv_remove hw hi h
   | removeStale isOK feer => exact (inv_removeStale hw hi isOK feer hop).1
   | verify t feer => exact (verify_spec hw hi hop.1 feer hop.2).2
   | setResendThreshold h => exact ⟨hi.noPanic, hi.cap, hi.list, hi.vmap, hi.conf, hi.orc, hi.fees⟩
+  | setSubs on => exact ⟨hi.noPanic, hi.cap, hi.list, hi.vmap, hi.conf, hi.orc, hi.fees⟩
 
 theorem inv_foldl {U : Tx → Prop} (hw : WF U) : ∀ (ops : List Op) (mp : Pool), Inv U mp → OpsIn U ops →
     Inv U (ops.foldl applyOp mp) := by
@@ -76,10 +80,10 @@ theorem capacity_applyOp {U : Tx → Prop} (hw : WF U) {mp : Pool} (hi : Inv U m
     (hop : OpOk U op) :
     (applyOp mp op).capacity = mp.capacity := by
   cases op with
-  | add t feer =>
-    obtain ⟨h1, h2⟩ := add_spec hw hi hop.1 feer hop.2
-    show (add mp t feer).1.capacity = mp.capacity
-    cases hr : add mp t feer with
+  | add t feer d =>
+    obtain ⟨h1, h2⟩ := add_spec hw hi hop.1 feer hop.2 d
+    show (add mp t feer d).1.capacity = mp.capacity
+    cases hr : add mp t feer d with
     | mk mp' r =>
       cases r with
       | none => exact (h2 mp' hr).2.1
@@ -88,6 +92,7 @@ theorem capacity_applyOp {U : Tx → Prop} (hw : WF U) {mp : Pool} (hi : Inv U m
   | removeStale isOK feer => exact (inv_removeStale hw hi isOK feer hop).2.2
   | verify t feer => exact (verify_spec hw hi hop.1 feer hop.2).1.2.2.2.2.1
   | setResendThreshold h => rfl
+  | setSubs on => rfl
 
 theorem capacity_foldl {U : Tx → Prop} (hw : WF U) : ∀ (ops : List Op) (mp : Pool), Inv U mp → OpsIn U ops →
     (ops.foldl applyOp mp).capacity = mp.capacity := by
@@ -106,20 +111,22 @@ theorem capacity_run {U : Tx → Prop} (hw : WF U) (c : Nat) (ops : List Op) (ho
 
 /-- the operation reads balances from `F` -/
 def UsesFeer (F : Feer) : Op → Prop
-  | .add _ f => f = F
+  | .add _ f _ => f = F
   | .verify _ f => f = F
   | .removeStale _ f => f = F
   | .remove _ => True
   | .setResendThreshold _ => True
+  | .setSubs _ => True
 
 theorem balLe_applyOp (F : Feer) (mp : Pool) (op : Op) (hu : UsesFeer F op) (h : BalLe F mp.fees) :
     BalLe F (applyOp mp op).fees := by
   cases op with
-  | add t f => have : f = F := hu; subst this; exact balLe_add mp t h
+  | add t f d => have : f = F := hu; subst this; exact balLe_add mp t d h
   | remove hh => exact balLe_removeInternal mp hh h
   | removeStale isOK f => have : f = F := hu; subst this; exact balLe_removeStale _ mp isOK
   | verify t f => have : f = F := hu; subst this; exact balLe_verify mp t h
   | setResendThreshold hh => exact h
+  | setSubs on => exact h
 
 theorem balLe_foldl (F : Feer) : ∀ (ops : List Op) (mp : Pool), (∀ op ∈ ops, UsesFeer F op) → BalLe F mp.fees →
     BalLe F (ops.foldl applyOp mp).fees := by
